@@ -52,6 +52,13 @@ struct op_apply::substate
     m_value->get_origin ().set_next (m_scon, std::move (stk));
   }
 
+  ~substate ()
+  {
+    // The rendezvous was constructed in our private state area, so
+    // it's up to us to destroy it again.
+    m_scon.des <op_apply::rendezvous> (m_value->get_rdv_ll ());
+  }
+
   stack::uptr
   next ()
   {
